@@ -55,7 +55,7 @@ EXTRA.update({
         ["add", "g", ["camp", 1.0, ["blackman_max", E("var", "low"), -0.05], 0.0]],
         ["add", "g", ["cdet", ["const", 16, 1.0], E("var", "low"), 0.0]]]),
 })
-TEMPLATES = {k: v for k, v in c04.PARAM_PROGRAMS.items() if not v.get("qubits")}  # (mappable templates: C04 and the mappable kernel)
+TEMPLATES = dict(c04.PARAM_PROGRAMS)
 TEMPLATES.update(EXTRA)
 
 
@@ -77,6 +77,9 @@ def h_build(shape):
         snap_t = l2.snapshot(tmpl)
         v1 = c04.var_values(inp, P, "v")
         v2 = c04.var_values(inp, P, "w")
+        # values that make the LAST use of an int variable fail (negative duration), when the template has one
+        ints = [n_ for (n_, t_, s_) in P["vars"] if t_ == "int" and n_ != "t" and s_ == 1]
+        bad = dict(v1, **{ints[-1]: -4}) if ints and not P.get("concrete_vars") else None  # (the floats of build 1, the next build uses others)
         builds = []
         kept = []  # timeline of each earlier result as the caller last saw it
         for vals in (v1, v2, v1, v1):
@@ -87,11 +90,21 @@ def h_build(shape):
                     if not builds[-1].is_measured() and not builds[-1].is_in_eom_mode(ch0) and not ch0.startswith("dmm"):
                         builds[-1].delay(100, ch0)
                     kept.append(l2.timeline(builds[-1]))
-                b = tmpl.build(**vals)
+                if len(builds) == 1 and bad is not None:
+                    # a build that FAILS half-way (after some parametrized objects were evaluated) leaves no trace in later builds
+                    try:
+                        tmpl.build(**dict(bad, **({"qubits": P["qubits"]} if P.get("qubits") else {})))
+                    except Exception:  # noqa: BLE001
+                        pass
+                direct = c04.build_program(inp, dict(P, vars=None, reg=P.get("direct_reg", P.get("reg", "reg3"))), env=vals)
+                try:
+                    b = tmpl.build(**dict(vals, **({"qubits": P["qubits"]} if P.get("qubits") else {})))
+                except Exception:  # noqa: BLE001  (the direct construction with these values succeeded)
+                    obs.append(("build:accepts_what_direct_construction_accepts", False))
+                    return obs
                 # ... and a later build must not reach back into the results handed out before
                 for old_b, old_t in zip(builds, kept):
                     obs.append(("build:earlier_results_unaffected", l2.snap_equal(l2.timeline(old_b), old_t)))
-                direct = c04.build_program(inp, dict(P, vars=None), env=vals)
             except l2.REFUSALS:
                 raise core.Infeasible()
             builds.append(b)
